@@ -590,12 +590,12 @@ where
             match req.end {
                 ChannelEnd::Sender => {
                     let contained = self.senders.remove(&req.cookie);
-                    debug_assert!(contained.is_some());
+                    debug_assert!(contained.is_some() || msg.result != CloseChannelEndResult::Ok);
                 }
 
                 ChannelEnd::Receiver => {
                     let contained = self.receivers.remove(&req.cookie);
-                    debug_assert!(contained.is_some());
+                    debug_assert!(contained.is_some() || msg.result != CloseChannelEndResult::Ok);
                 }
             }
         }
